@@ -458,6 +458,34 @@ func c07Helpers(c *core.Collector, x *Ctx) {
 			}
 		}
 	}
+	// runs of one rune at every length up to 130 and around 255 (conversion buffers are sized from the input length: a rune whose
+	// UTF-8 form is three times its GBK form, or twice, fills them at different speeds), alone and behind an ASCII prefix
+	{
+		edge := []rune{'€', '中', '·', 'A', 'é'}
+		for _, r := range gen.GBKEdgeRunes() {
+			edge = append(edge, r)
+		}
+		nrep := 0
+		for _, r := range edge {
+			for k := 1; k <= 260; k++ {
+				if k > 130 && k < 250 && k%16 != 0 {
+					continue
+				}
+				for _, prefix := range []string{"", "A"} {
+					s := prefix + strings.Repeat(string(r), k)
+					nrep++
+					c.Eval()
+					guard(c, func() any { return map[string]any{"fn": "UTF82GBK/GBK2UTF8", "input": trunc(s, 40), "repeat": k} }, func() {
+						g := utils.UTF82GBK([]byte(s))
+						if back := string(utils.GBK2UTF8(g)); back != s {
+							viol("GBK2UTF8|round trip", fmt.Sprintf("GBK2UTF8(UTF82GBK(%q x %d)) has %d bytes, want %d", string(r), k, len(back), len(s)), map[string]any{"fn": "GBK2UTF8", "rune": string(r), "repeat": k})
+						}
+					})
+				}
+			}
+		}
+		c.Count("repeated_rune_strings", int64(nrep))
+	}
 	c.Sample(map[string]any{"law": "GBK2UTF8(UTF82GBK(s))==s", "code_points": len(runes), "example": "京A·12345"})
 	c.Sample(map[string]any{"law": "BCD2Time(Time2BCD(t))==t", "example": times[len(times)/2]})
 	c.Exh = true
